@@ -195,8 +195,13 @@ def execute_step(m: Machine, step, prop_of):
             ids = [i for i in step["ids"] if -e.model.n <= i < e.model.n]
             if not ids:
                 return None
-            e.obj.reduce_to_ids(np.array(ids, dtype=int)
-                                if step.get("ids_np") else ids)
+            kind = step.get("ids_kind") or (
+                "ndarray" if step.get("ids_np") else "list")
+            arg = {"ndarray": lambda: np.array(ids, dtype=int),
+                   "tuple": lambda: tuple(ids),
+                   "list": lambda: list(ids)}[kind]()
+            m.probe_hit("reduce_to_ids_" + kind)
+            e.obj.reduce_to_ids(arg)
             e.model = e.model.subset(ids)
             receivers.append(e)
         elif op == "downsample":
@@ -346,8 +351,13 @@ def execute_step(m: Machine, step, prop_of):
                 parts = e.obj.split_speed_outliers(step["thr"])
             parts = list(parts)
             if len(parts) == 1 and parts[0] is e.obj:
-                m.alias[step["uid"] + ".0"] = e.uid
-                m.probe_hit("split_returned_self")
+                # "split parts ... are independent of it": a part that IS the
+                # trajectory cannot be - whatever is done to the part is done
+                # to the original (DESIGN 9.17; the design first accepted this
+                # as an alias)
+                raise Violation(prop_of["derived"],
+                                "split-part-is-the-trajectory-itself",
+                                obj=e.uid, op=op)
             else:
                 total = 0
                 for k, o in enumerate(parts):
@@ -960,6 +970,8 @@ def gen_object_spec(rng, small=True):
         profile["tzero"] = rng.choice(["first", "mid"])
     if rng.random() < 0.12:
         profile["flat"] = rng.choice([1, 2, 3])  # exactly planar positions
+    if rng.random() < 0.2:
+        profile["qround"] = rng.choice([6, 7, 7, 9])
     spec = {"ctor": rng.choice(["se3", "xyzquat", "se3", "xyzquat", "all",
                                 "se3_nd"]),
             "stamped": rng.random() < 0.7, "n": n,
@@ -1037,7 +1049,8 @@ def gen_step(m: Machine, rng, uid):
                 else:
                     ids = ids[::-1]
             return {"op": op, "uid": uid, "obj": e.uid, "ids": ids,
-                    "ids_np": rng.random() < 0.5}
+                    "ids_kind": rng.choice(["list", "ndarray", "list",
+                                            "ndarray", "tuple"])}
         if op == "downsample":
             return {"op": op, "uid": uid, "obj": e.uid,
                     "n": rng.choice([1, 2, 3, max(1, n // 2), n, n + 3, 0,
